@@ -407,8 +407,8 @@ Proof.
       * cbn [app] in *. change (nalu :: r) with ([nalu] ++ r) in *.
         eapply IH; try eassumption. right. left. reflexivity.
       * destruct Hbok as [Hbok|Hbok]; [discriminate|].
-        destruct (write_batch5 e (b0 :: br) false) as [[[pk1 e1]|]|[]] eqn:E1; try discriminate.
-        destruct (enc5_loop e1 r [nalu]) as [[[pk2 e2]|]|[]] eqn:E2; try discriminate.
+        destruct (write_batch5 e (b0 :: br) false) as [[[pk1 e1]|]|?] eqn:E1; try discriminate.
+        destruct (enc5_loop e1 r [nalu]) as [[[pk2 e2]|]|?] eqn:E2; try discriminate.
         apply inl_ok_inj, pair_equal_spec in Hw. destruct Hw as [Hp _]. subst pkts.
         pose proof (write_batch5_post _ _ _ _ _ E1) as (_ & _ & _ & Hm & _).
         rewrite Forall_app in Hok. destruct Hok as [Hok1 Hok2].
@@ -455,7 +455,7 @@ Proof.
   - cbn in Hw. injection Hw as <- <-.
     destruct deltas; cbn; repeat split; try tauto; apply Hc.
   - cbn [h265_encode_run] in Hw.
-    destruct (h265_encode e au) as [[[pk1 e1]|]|[]] eqn:E1; try discriminate.
+    destruct (h265_encode e au) as [[[pk1 e1]|]|?] eqn:E1; try discriminate.
     destruct (h265_encode_run e1 r) as [[rest e2]|] eqn:E2; [|discriminate].
     injection Hw as <- <-.
     destruct deltas as [|dl dr]; [discriminate|]. cbn [length] in Hlen.
